@@ -267,24 +267,33 @@ theorem recombine_cases {β : Type} (crossed insertBoth : Bool) (c : β × β) :
 section Gate
 variable {F : Type} [Field F] [LinearOrder F] [IsStrictOrderedRing F]
 
-/-- The crossover gate `u <= pc` for a uniform draw `u ∈ [0,1)`: probability one always crosses;
-probability zero never does — except on the draw `u = 0` (excluded region, see the counterexample). -/
-theorem crossover_gate_partial (u : F) (h0 : 0 ≤ u) (h1 : u < 1) :
-    crossedBy u 1 = true ∧ (0 < u → crossedBy u 0 = false) := by
-  constructor
-  · simp [crossedBy, h1.le]
-  · intro hu; simp [crossedBy, not_le.mpr hu]
+/-- The crossover gate `u < pc` for a uniform draw `u ∈ [0,1)`: a pair is crossed exactly when the
+draw is below the probability; hence probability 0 never crosses and probability 1 always
+crosses, for every draw. -/
+theorem crossover_gate (u pc : F) (h0 : 0 ≤ u) (h1 : u < 1) :
+    (crossedBy u pc = true ↔ u < pc) ∧ crossedBy u 0 = false ∧ crossedBy u 1 = true := by
+  refine ⟨by simp [crossedBy], ?_, ?_⟩
+  · simp [crossedBy, not_lt.mpr h0]
+  · simp [crossedBy, h1]
 
-/-- The full statement (`pc = 0` never crosses), kept visible; it is refuted below. -/
-def crossover_gate_full : Prop := ∀ u : F, 0 ≤ u → u < 1 → crossedBy u (0 : F) = false
-
-/-- Counterexample: with crossover probability 0 the smallest draw `u = 0` still crosses
-(`<=` instead of `<`); on a pair with `insert_both = false` the population shrinks. -/
-theorem crossover_gate_pc_zero_violates :
-    crossedBy (0 : Int) 0 = true ∧
-    frame [[100, 101], [200, 201]]
-      ((recombine (crossedBy (0 : Int) 0) (multiPointCrossover [100, 101] [200, 201] [1]) false).toList)
-      = [[100, 201]] := by decide
+/-- With crossover probability 0 the population passes through `recombination` unchanged, whatever
+the draws and whatever the crossover helper would return. -/
+theorem recombination_pc_zero_identity {β : Type} (parents : List β) (us : List F) (hu : ∀ u ∈ us, 0 ≤ u)
+    (children : List (Option (β × β))) (insertBoth : Bool) (rs : List (OptPair β))
+    (hrs : (List.zipWith (fun u c => recombine (crossedBy u 0) c insertBoth) us children) = rs.map some) :
+    frame parents rs = parents := by
+  have hall : ∀ r ∈ rs, r = OptPair.none := by
+    intro r hr
+    have : some r ∈ rs.map some := List.mem_map.mpr ⟨r, hr, rfl⟩
+    rw [← hrs] at this
+    obtain ⟨i, hi, hget⟩ := List.getElem_of_mem this
+    simp only [List.getElem_zipWith] at hget
+    have hlt : i < us.length := by simp only [List.length_zipWith] at hi; omega
+    have : crossedBy us[i] (0 : F) = false := by
+      simp [crossedBy, not_lt.mpr (hu _ (List.getElem_mem hlt))]
+    rw [this] at hget
+    simpa [recombine] using hget.symm
+  exact frame_none_id parents rs hall
 end Gate
 
 section DE
@@ -314,6 +323,12 @@ example : deExpLegal false false 4 [true, false, false, true] = true := by decid
 example : deExpLegal true false 4 [false, false, true, false] = true := by decide
 example : deMutation 1 (2 : Int) [[1, 1], [5, 0], [2, 7], [0, 0], [1, 1], [1, 1]] = .ok [[7, -13], [0, 0]] := by decide
 example : maskLegal true false [false, false, false] 3 = true := by decide
+/-- draws in `[0,1)`: the smallest draw no longer crosses at probability 0, and crosses at 0.3 -/
+example : crossedBy (0 : Int) 0 = false ∧ crossedBy (0 : Int) 1 = true := by decide
+example : (0 : Rat) ≤ 0 ∧ (0 : Rat) < 1 ∧ (0 : Rat) ≤ 999 / 1000 ∧ (999 / 1000 : Rat) < 1 := by norm_num
+example : frame [[100, 101], [200, 201]]
+    ((recombine (crossedBy (0 : Int) 0) (multiPointCrossover [100, 101] [200, 201] [1]) false).toList)
+    = [[100, 101], [200, 201]] := by decide
 example : ∀ t ∈ [(1 / 2 : Rat), 3 / 10, 0, 1], 0 ≤ t ∧ t ≤ 1 := by
   intro t ht; simp at ht; rcases ht with rfl | rfl | rfl | rfl <;> norm_num
 
